@@ -21,10 +21,10 @@ type CV struct {
 	N int // cap for slices (>= len)
 }
 
-func cvInt(i int64) *CV      { return &CV{K: "int", I: big.NewInt(i)} }
-func cvBig(b *big.Int) *CV   { return &CV{K: "int", I: new(big.Int).Set(b)} }
-func cvBool(b bool) *CV      { return &CV{K: "bool", B: b} }
-func cvStr(s string) *CV     { return &CV{K: "str", S: s} }
+func cvInt(i int64) *CV    { return &CV{K: "int", I: big.NewInt(i)} }
+func cvBig(b *big.Int) *CV { return &CV{K: "int", I: new(big.Int).Set(b)} }
+func cvBool(b bool) *CV    { return &CV{K: "bool", B: b} }
+func cvStr(s string) *CV   { return &CV{K: "str", S: s} }
 
 func (c *CV) String() string {
 	if c == nil {
